@@ -294,13 +294,16 @@ def worker(chunk):
                         objs.append(('unpickled', p2, x, o if first else None))
                         first = False
         done = {}
+        noprint = set()
         for ent in objs:
             where, p, o = ent[:3]
             src = ent[3] if len(ent) > 3 else None
             stats['objects'] += 1
             pr = _printable(o)
-            if pr is not None and not (src is not None and done.get(id(src)) == 'unprintable'):
-                direct.append((d['id'], where, p, 'print', pr))
+            if pr is not None:
+                noprint.add(id(o))
+                if not (src is not None and id(src) in noprint):
+                    direct.append((d['id'], where, p, 'print', pr))
             if not isinstance(o, Pm.Qube):
                 continue
             rec = record(o, Pm)
